@@ -16,6 +16,11 @@ func VerifToWALRecords(database string, rec *models.ColumnarRecord) []map[string
 	return (&ArrowBuffer{}).columnarToWALRecords(database, rec)
 }
 
+// VerifTypedToWALRecords: the row-format WAL records of a pre-typed batch (imports, TLE).
+func VerifTypedToWALRecords(database, measurement string, batch *TypedColumnBatch, n int) []map[string]interface{} {
+	return typedBatchToWALRecords(database, measurement, batch, n, nil)
+}
+
 // Observation of what reaches the buffering layer.
 type VerifBuffered struct {
 	Database    string
